@@ -108,6 +108,10 @@ struct AppTokenWorld : World
     };
     auto do_reg = [&](const char* opn) -> bool {
       void* ptr = &g_objs[next_obj++ % 8192];
+      if (next_obj % 7 == 3) {
+        ptr = nullptr; // a null application pointer is a pointer like any other: it gets a token that resolves to it
+        c.probe("null_application_pointer_registered");
+      }
       unsigned tok = 0;
       Outcome o = attempt([&] { tok = map.get_app_pointer_idx(ptr, (uint8_t)limit); });
       bool full = model.size() >= (size_t)limit;
@@ -302,6 +306,10 @@ struct AppTokenWorld : World
       };
       auto do_reg = [&](const char* opn) -> bool {
         int* ptr = &g_objs[next_obj++ % 8192];
+        if (next_obj % 7 == 3) {
+          ptr = nullptr; // a null application pointer is a pointer like any other: it gets a token that resolves to it
+          c.probe("null_application_pointer_registered");
+        }
         Slot s;
         Outcome o = attempt([&] { s.o = std::make_unique<Owner>(sb.get_app_pointer(ptr)); });
         bool full = model.size() >= (size_t)limit;
